@@ -37,6 +37,8 @@ type c11Decl struct {
 	goName                    string // declared name inside the cypher package ("" for unnamed types)
 	fields                    []c11Field
 	copyCase, isNode, nilSafe bool
+	elemKind                  string // list / map declarations: static class of the ELEMENT type ("value" for obj declarations)
+	elemSty                   int
 	helpers                   []int // indices into c11ctx.helpers: the functions a Copy of this type passes through
 }
 
@@ -1809,6 +1811,43 @@ func c11Facts(repo string, w *strings.Builder) error {
 	}
 	x.otherModes()
 	x.buildHelpers(repo)
+	// element types of list / map declarations, from the type expression (named types) or the %T name (unnamed slices)
+	for _, d := range x.decls {
+		d.elemKind = "value"
+		if d.shape == "obj" {
+			continue
+		}
+		var el ast.Expr
+		if d.goName != "" {
+			if ts := x.types[d.goName]; ts != nil {
+				switch t := ts.Type.(type) {
+				case *ast.MapType:
+					el = t.Value
+				case *ast.ArrayType:
+					el = t.Elt
+				}
+			}
+		} else if strings.HasPrefix(d.name, "[]") {
+			e := strings.TrimPrefix(d.name, "[]")
+			if strings.HasPrefix(e, "*") {
+				if j, ok := x.idx[e]; ok {
+					d.elemKind, d.elemSty = "ptr", j
+				}
+				continue
+			}
+			if local := strings.TrimPrefix(e, x.pkg+"."); local != e {
+				el = &ast.Ident{Name: local}
+			}
+		}
+		if el != nil {
+			if k, sty, err := x.classify(el); err == nil {
+				d.elemKind = k
+				if j, ok := x.idx[sty]; ok {
+					d.elemSty = j
+				}
+			}
+		}
+	}
 
 	// frozen: no indexed write and no append through a selector of that field name anywhere in the module
 	sliceNames := map[string]bool{}
@@ -1901,8 +1940,8 @@ func c11Facts(repo string, w *strings.Builder) error {
 	fmt.Fprintf(w, "def types : List TypeDecl := [\n")
 	for i, d := range x.decls {
 		fmt.Fprintf(w, "  -- %d %s\n", i, d.name)
-		fmt.Fprintf(w, "  { name := %s, shape := .%s, elemMode := .%s, copyCase := %v, isNode := %v, nilSafe := %v, helpers := %s,\n    fields := [",
-			leanStr(d.name), d.shape, d.elemMode, d.copyCase, d.isNode, d.nilSafe, leanNatList(d.helpers))
+		fmt.Fprintf(w, "  { name := %s, shape := .%s, elemMode := .%s, copyCase := %v, isNode := %v, nilSafe := %v, helpers := %s, elemKind := .%s, elemSty := %d,\n    fields := [",
+			leanStr(d.name), d.shape, d.elemMode, d.copyCase, d.isNode, d.nilSafe, leanNatList(d.helpers), d.elemKind, d.elemSty)
 		for j, f := range d.fields {
 			if j > 0 {
 				fmt.Fprintf(w, ",")
